@@ -465,6 +465,8 @@ def run(ctx, rep):
     rule_first(ctx, rep)
     rule_merge(ctx, rep)
     rule_allsources(ctx, rep)
+    from rules import c03_allwalks
+    c03_allwalks.run(ctx, rep)
     # a faulty file must not be replaced in the file table by a different file that merely compares equal
     from rules.c06 import rule_types
     rule_types(ctx, rep, rid="R-C03-fileid")
